@@ -74,6 +74,7 @@ def plan(tier, seed):
     shards = [(r, MAPS.index(m), lo) for r in ress for m in maps for lo in range(0, len(PATTERNS), 128)]
     shards.append(("empty",))
     shards.append(("flagonly",))
+    shards += [("tracks", k) for k in range(2, 7)]
     shards += [("headers", k) for k in range(8)]
     shards += [("big", lo) for lo in range(0, len(PATTERNS), 128)]
     return dict(
@@ -119,6 +120,27 @@ def run_shard(shard, ctx):
                 for fs in ("none", "both"):
                     group = pat_lines(pat) + ["10 = N %d %d" % f for f in FLAGSETS[fs]]
                     _one(ctx, 192, sync, mname, "between", fs, "lanes-flags", ["2 = N 0 0"], group, ["12 = N 1 1"], pat, sus, longest, header=header)
+        return
+    if shard[0] == "tracks":
+        # whole tracks: K notes, every assignment of a length out of {0, 1, 5, 40} to every note - the longest
+        # sustain sits on any note, shorter ones before, after and in between (last-note-end = max over ALL notes)
+        K = shard[1]
+        ticks = [2, 10, 12, 14, 17, 30][:K]
+        for mname, mlines in (MAPS[0], MAPS[4], MAPS[5]):
+            sync = ["0 = TS 4", "0 = B 120000"] + mlines
+            for lens in itertools.product((0, 1, 5, 40), repeat=K):
+                if K == 6 and lens[0] not in (0, 40):
+                    continue
+                ctx.node()
+                body = ["%d = N %d %d" % (t, i % 5, ln) for i, (t, ln) in enumerate(zip(ticks, lens))]
+                text = mk(res=192, sync=sync, tracks={"ExpertSingle": body})
+                expected = [[[t, ln, ln, t + ln, 0, True] for t, ln in zip(ticks, lens)], 0]
+                got = e1.run_probe(probe, text)
+                ctx.case(text, nontrivial=any(lens), sample=lambda: dict(body=body, sync=sync))
+                ctx.evaluations += 6 * K + 1
+                ctx.hist["whole_tracks"] += 1
+                if got != expected:
+                    e1.report(ctx, "sustain", text, PROBE_SRC, [expected], got, "track of %d notes with lengths %r (map %s): sustain / end tick / end time / last-note-end differ: body=%r" % (K, list(lens), mname, body))
         return
     if shard[0] == "flagonly":
         # "flag lines never contribute a length": a tick that carries ONLY flag lines must look the same whatever
